@@ -267,6 +267,11 @@ func (e *sbEngine) drain() {
 	e.mu.Lock()
 	defer e.mu.Unlock()
 	for _, r := range e.reqs {
+		if !r.submitted {
+			e.violate("C02", "the caller of request %d (model %d) is still inside GetRunner: it was neither queued nor told that the server is busy", r.id, r.model)
+		}
+	}
+	for _, r := range e.reqs {
 		if r.replies == 0 && !r.cancelled {
 			e.violate("C02", "request %d (model %d) was never answered although every load finished and every other request completed", r.id, r.model)
 		}
